@@ -302,6 +302,7 @@ def run(ctx):
 
     # ---------------- (g) client
     client(ctx)
+    served_is_verified(ctx)
 
 
 _WS = [None, None, None]
@@ -468,6 +469,45 @@ def client(ctx):
     ctx.only_callers('g', WITH, [(CV + '*', 'second loop of verify_chain')], 'only verify_chain enables the cache')
     ctx.only_callers('g', '*::CertificateVerifierCache::store_validated_certificate',
                      [(WITHOUT + '*', 'after full verification')], 'cache is filled only by verify_without_cache')
+    # a link taken from the cache names the next certificate by hash only: the certificate downloaded for it must have that hash
+    # (F12: it was not compared - a provider could answer the hash of a certificate that had failed validation with any genuine
+    # certificate, and the cached, never anchored descendants were accepted on the second attempt)
+    wv = ctx.try_fn('g', WITH)
+    if wv is not None:
+        GCD = ['*::CertificateRetriever::get_certificate_details', '*::InternalCertificateRetriever::get_certificate_details',
+               '<*InternalCertificateRetriever as *CertificateRetriever>::get_certificate_details']
+        inst = 'verify_with_cache_enabled: a certificate downloaded for a cached link is used only if its hash equals the requested hash'
+        sites = ctx.closure_sites(wv, GCD, depth=2)
+        bad = []
+        for g, c in sites:
+            body = g.body
+            req = {o for o in fn_origins(g, c.args[1], 'adapters') if not o.startswith('const:')}
+
+            def pred(gd, req=req):
+                if gd.op not in ('Eq', 'Ne'):
+                    return False
+                for x, y in ((gd.a_orig, gd.b_orig), (gd.b_orig, gd.a_orig)):
+                    if any(glob_match('call:' + q, o) for q in GCD for o in x) and not any(glob_match('call:' + q, o) for q in GCD for o in y) \
+                            and (req & y):
+                        return True
+                return False
+            removed = set()
+            for gd in find_guards(body):
+                if pred(gd):
+                    rel_t = CMP_REL[gd.op]
+                    if rel_t <= {'eq'}:
+                        removed |= gd.true_edges
+                    if (ALL3 - rel_t) <= {'eq'}:
+                        removed |= gd.false_edges
+            uses = {cc.bb for cc in ctx.call_sites(body, [WITHOUT])}
+            start = [c.target] if c.target is not None else []
+            reach = body.reach(start, removed=removed)
+            if not removed or (uses & reach) or success_reachable(body, removed, 'ok', starts=start):
+                bad.append('%s line %d' % (fn_short(g.name), c.line))
+        if bad:
+            R.violation('g', 'R6', inst, 'client:cached-link-hash', 'download sites whose certificate is used without `certificate.hash == requested hash`: %s' % bad, wv.loc())
+        else:
+            R.ok('g', 'R6', inst, '%d download site(s) in the cache-enabled step' % len(sites), wv.loc())
     # store only after verify_certificate succeeded
     from engine import Sink as S
     wf = ctx.try_fn('g', WITHOUT)
@@ -558,6 +598,21 @@ def client(ctx):
             else:
                 R.violation('g', 'R6', 'verify_chain: loop 1 exit tests the epoch against the start epoch',
                             'verify_chain:epoch-boundary-guard', 'no epoch (in)equality guard in verify_chain', cf.loc())
+
+
+def served_is_verified(ctx):
+    """The chain is verified on the entity converted from the served message, and the client returns / uses the served message:
+    every verified field of the entity must be the same-named field of the message (added after seed C03-5: the conversion
+    recomputed signed_message from the protocol message, so the served field was never looked at)."""
+    from props.c04 import find_impl
+    E_ = 'mithril_common::entities::'
+    M_ = 'mithril_common::messages::certificate::'
+    MP_ = 'mithril_common::messages::message_parts::certificate_metadata::CertificateMetadataMessagePart'
+    fm2c = find_impl(ctx, 'g', E_ + 'certificate::Certificate', 'std::convert::TryFrom', M_ + 'CertificateMessage')
+    if fm2c is not None:
+        ctx.field_mapping('g', M_ + 'CertificateMessage', E_ + 'certificate::Certificate', fm2c, desc='(served message -> verified entity)')
+        ctx.field_mapping('g', MP_, E_ + 'certificate_metadata::CertificateMetadata', fm2c, desc='(served message -> verified entity)',
+                          src_prefix='pty:CertificateMessage.metadata')
 
 
 def find_guards_family(fn):
